@@ -236,7 +236,7 @@ class ExprMixin:
     def resolve_name(self, name):
         if name in self.c.names:
             return self.c.names[name]
-        return None
+        return getattr(self.reg, 'global_names', {}).get(name)
 
     def ev_Tuple(self, e, st):
         for vs, s in self.ev_many(e.elts, st):
@@ -267,7 +267,8 @@ class ExprMixin:
         t = tys[0]
         for u in tys[1:]:
             if u != t:
-                if u.kind == 'none': t = TOpt(t)
+                if 'any' in (u.kind, t.kind): t = ANY          # a dynamically typed value may be None already
+                elif u.kind == 'none': t = TOpt(t)
                 elif t.kind == 'none': t = TOpt(u)
                 elif t.kind == 'opt' and t.args[0] == u: pass
                 elif t.kind == 'obj' and u.kind == 'obj':
